@@ -434,6 +434,20 @@ def sparse_c04(acc, V, src, fileid, crec, co, opc):
     if ol != tl:
         acc.mismatch("C04|%s|labels|large-code" % src, v=vs(V), file=fileid, path=crec["path"],
                      missing=sorted(tl - ol)[:8], extra=sorted(ol - tl)[:8])
+    # 3.11+: the handler targets the Bytecode class will flag (it parses the exception table when it is built; no iteration)
+    if V >= (3, 11) and crec.get("exc") is not None:
+        try:
+            from xdis.bytecode import Bytecode
+
+            ents = Bytecode(co, opc).exception_entries or []
+            acc.count("c04_large_code_exception_targets")
+            got_t = sorted(set(e.target for e in ents))
+            want_t = sorted(set(e[2] for e in crec["exc"]))
+            if got_t != want_t:
+                acc.mismatch("C04|%s|is_jump_target|exc-target|large-code" % src, v=vs(V), file=fileid, path=crec["path"],
+                             expected=want_t[:8], observed=got_t[:8])
+        except Exception as e:
+            acc.mismatch("C04|%s|exception-entries-raise:%s|large-code" % (src, type(e).__name__), v=vs(V), file=fileid, path=crec["path"])
     if not crec.get("inst_ok"):
         return
     prev_ext = {}
@@ -2514,6 +2528,8 @@ def cmd_hostile(args):
             for depth in ([2000, 200000] if not args.get("big") else [2000, 200000, 400000]):
                 yield "adversarial:ref-chain-hash:%d" % depth, MU.ref_chain((3, 8) if HOSTV != (3, 8) else (3, 4), depth)
             for c in MU.dropbox_streams(rng):
+                yield c
+            for c in MU.type_confusion(rng):
                 yield c
             for c in MU.dropbox_headers(rng):
                 pad = c[1] + b"\0" * max(0, 60 - len(c[1]))  # load_module refuses files below 50 bytes outright
